@@ -223,7 +223,11 @@ def check_edges_and_value(res, facts, prop):
     res.ob('R-AVG', 'corrected mean stays in [0, mean]', lo >= 0 and ctx.rng(a - E)[0] >= 0, 'E(a) in [%s,%s], a - E(a) >= %s' % (lo, hi, ctx.rng(a - E)[0]))
     d = E.diff(('sym', 'a'))
     res.ob('R-AVG', 'corrected mean is monotone in the mean', ctx.rng(d)[0] >= 0, 'dE/da = %r in %s' % (d, ctx.rng(d)))
-    # error_estimate is the documented polynomial
+    # error_estimate is the documented polynomial (private helper: checked when it exists; the average-window obligation
+    # of poll() checks the same polynomial on the value actually stored)
+    if RCF + 'error_estimate' not in facts.fns:
+        res.notes.append('private helper error_estimate not present (inlined/renamed): covered by the poll() term')
+        return
     it = Interp(facts)
     st = State()
     rc, N = rb.controller(it, st)
